@@ -17,19 +17,20 @@ Definition writes_needed (c : conn) : nat :=
 
 Lemma cc_write_step x :
   sc_st x = AwaitOut -> pending_write (sc_conn x) = true -> c_rbuf (sc_conn x) <> Some [] ->
-  exists y sent, cc_write x true = inl (y, sent) /\
+  exists y sent, cc_write x true 0 = inl (y, sent) /\
     unsent (sc_conn x) = sent ++ unsent (sc_conn y) /\ c_rbuf (sc_conn y) = None /\
     sc_gid y = sc_gid x /\ sc_client y = sc_client x /\ sc_infl y = sc_infl x /\ sc_out y = sc_out x /\
     sc_st y = (if pending_write (sc_conn y) then AwaitOut else AwaitIn) /\
     S (writes_needed (sc_conn y)) = writes_needed (sc_conn x).
 Proof.
-  intros S0 Hp Hrb. unfold cc_write. rewrite S0. unfold try_write, unsent, pending_write, writes_needed in *.
+  intros S0 Hp Hrb. unfold cc_write. rewrite S0. change (Nat.eqb 0 0) with true. cbv iota.
+  unfold try_write, unsent, pending_write, writes_needed in *.
   destruct (c_rbuf (sc_conn x)) as [b|] eqn:Rb.
-  - destruct b as [|b0 bt]; [congruence|]. cbn [length]. rewrite Nat.eqb_refl.
+  - destruct b as [|b0 bt]; [congruence|]. rewrite firstn_all. cbn [length]. rewrite Nat.eqb_refl.
     do 2 eexists. split; [reflexivity|]. cbn [sc_conn sc_st sc_client sc_gid sc_infl sc_out set_write c_rbuf c_rq].
     repeat split; reflexivity.
   - destruct (c_rq (sc_conn x)) as [|r q] eqn:Rq; [discriminate|].
-    pose proof (serialize_nonempty r) as Hs. destruct (serialize r) as [|s0 st] eqn:Sr; [congruence|].
+    pose proof (serialize_nonempty r) as Hs. rewrite firstn_all. destruct (serialize r) as [|s0 st] eqn:Sr; [congruence|].
     cbn [length]. rewrite Nat.eqb_refl.
     do 2 eexists. split; [reflexivity|]. cbn [sc_conn sc_st sc_client sc_gid sc_infl sc_out set_write c_rbuf c_rq flat_map app].
     rewrite Sr. repeat split; reflexivity.
